@@ -34,6 +34,7 @@ class Harness:
         self.eng = Engine(mir, mode=mode, **kw)
         self.syms = {}  # name -> z3 const
         self.assumptions = []  # (text, z3)
+        self._cur_st = None
         self.obligations = []  # dict(name, status, time, model)
         self.bounds = {}
         self.notes = []
@@ -104,9 +105,25 @@ class Harness:
     def new_state(self):
         return State()
 
+    def materialize(self, st, v):
+        """replace Box placeholders of a template value by real heap cells (Box { Unique { NonNull { ptr } }, allocator })"""
+        if isinstance(v, Struct):
+            if v.ty == "BoxInline":
+                cell = self.eng.heap_alloc(st, self.materialize(st, v.fields[0]))
+                return Struct("Box", [Struct("Unique", [Struct("NonNull", [cell])]), UNIT])
+            fs = [self.materialize(st, f) for f in v.fields]
+            return v if all(a is b for a, b in zip(fs, v.fields)) else Struct(v.ty, fs)
+        if isinstance(v, Enum):
+            fs = [self.materialize(st, f) for f in v.fields]
+            return v if all(a is b for a, b in zip(fs, v.fields)) else Enum(v.ty, v.variant, fs)
+        if isinstance(v, Seq):
+            es = [self.materialize(st, e) for e in v.elems]
+            return v if all(a is b for a, b in zip(es, v.elems)) else Seq(es, ety=v.ety)
+        return v
+
     def put(self, st, val):
         """allocate val on the harness heap, return pointer"""
-        return self.eng.heap_alloc(st, val)
+        return self.eng.heap_alloc(st, self.materialize(st, val))
 
     def deref(self, st, p):
         return self.eng.load_ptr(st, p)
@@ -121,6 +138,7 @@ class Harness:
         st = out_or_st.st if isinstance(out_or_st, Outcome) else out_or_st
         if isinstance(claim, bool):
             claim = z3.BoolVal(claim)
+        quick_sat_model = None
         # identity fast path: many ledger claims are identities of the terms the code computed; they are unsatisfiable
         # on their own, without the (possibly hard, nonlinear) path condition
         if not z3.is_false(z3.simplify(claim)):
@@ -134,9 +152,27 @@ class Harness:
                 rec = {"name": name, "time_s": round(time.time() - t0, 4), "status": "holds", "identity": True}
                 self.obligations.append(rec)
                 return rec
+            # a short attempt at the full query: easy proofs and, above all, easy counterexamples end here
+            sq = z3.Solver()
+            sq.set("timeout", 8000)
+            for _, a in self.assumptions:
+                sq.add(a)
+            for c in st.pc:
+                sq.add(c)
+            for c in extra:
+                sq.add(c)
+            sq.add(z3.Not(claim))
+            tq = time.time()
+            rq = sq.check()
+            self.solver_time += time.time() - tq
+            if rq == z3.unsat:
+                rec = {"name": name, "time_s": round(time.time() - tq, 4), "status": "holds"}
+                self.obligations.append(rec)
+                return rec
+            quick_sat_model = sq.model() if rq == z3.sat else None
             # second stage: domain assumptions and the definitions of fresh variables only (no branch conditions):
             # still a sound proof (fewer hypotheses), and much easier for the nonlinear solver
-            if getattr(st, "defs", ()):
+            if quick_sat_model is None and getattr(st, "defs", ()):
                 s1 = z3.Solver()
                 s1.set("timeout", 15000)
                 for _, a in self.assumptions:
@@ -153,7 +189,7 @@ class Harness:
                     return rec
         # third stage: the full query with nonlinear reasoning switched off (products / quotients of symbolic terms are opaque
         # monomials of the normalised polynomials): `unsat` is still a proof, anything else falls through to the full query
-        if not z3.is_false(z3.simplify(claim)):
+        if not z3.is_false(z3.simplify(claim)) and quick_sat_model is None:
             s2 = z3.SimpleSolver()
             s2.set("arith.nl", False)
             s2.set("timeout", 10000)
@@ -202,7 +238,7 @@ class Harness:
         for c in extra:
             s.add(c)
         s.add(z3.Not(claim))
-        if not z3.is_false(z3.simplify(claim)) and self.timeout_ms > 30000:
+        if not z3.is_false(z3.simplify(claim)) and self.timeout_ms > 30000 and quick_sat_model is None:
             # fifth stage: an early, short second opinion: cvc5 is often much quicker than z3 on these mixed ite / polynomial queries
             t5 = time.time()
             r5 = second_opinion(s, 30)
@@ -212,6 +248,8 @@ class Harness:
                 self.obligations.append(rec)
                 return rec
         t = time.time()
+        if quick_sat_model is not None:
+            s.set("timeout", 8000)
         r = s.check()
         dt = time.time() - t
         self.solver_time += dt
@@ -257,7 +295,7 @@ class Harness:
         same path, so a claim that fails only where one of them fails is reported there and not twice."""
         st = out_or_st.st if isinstance(out_or_st, Outcome) else out_or_st
         s = z3.Solver()
-        s.set("timeout", self.timeout_ms)
+        s.set("timeout", min(self.timeout_ms, 30000))
         for _, a in self.assumptions:
             s.add(a)
         for c in st.pc:
@@ -281,7 +319,7 @@ class Harness:
             return "sat", m
         return ("unsat" if r == z3.unsat else "unknown"), None
 
-    def alt_models(self, out_or_st, negated, extra, prev, rnd, tries=8):
+    def alt_models(self, out_or_st, negated, extra, prev, rnd, tries=5):
         """other models of the same violation (same path, same negated claim), moved away from `prev` by random pins:
         used when a witness does not reproduce on the real build because it sits on a rounding-sensitive boundary"""
         st = out_or_st.st if isinstance(out_or_st, Outcome) else out_or_st
@@ -318,7 +356,7 @@ class Harness:
         """a model that violates the claim by a margin (and, if possible, with contract results pinned); or None"""
         st = out_or_st.st if isinstance(out_or_st, Outcome) else out_or_st
         s = z3.Solver()
-        s.set("timeout", self.timeout_ms)
+        s.set("timeout", min(self.timeout_ms, 30000))
         for _, a in self.assumptions:
             s.add(a)
         for c in st.pc:
